@@ -22,6 +22,7 @@
 #include <omp.h>
 #include <poll.h>
 #include <signal.h>
+#include <sys/resource.h>
 #include <sys/wait.h>
 #include <unistd.h>
 
@@ -335,7 +336,11 @@ bool decode(const std::vector<double> &d, GridOut &o) {
   return true;
 }
 
-const double BUDGET_S = 6.; // a grid of 300 generators takes < 0.5 s
+// a grid of 300 generators takes < 0.5 s.  A hang is decided on the CPU time
+// of the child (load independent); the wall-clock limit only ends cases on an
+// overloaded machine and is inconclusive ("wall-limit"), never a failure.
+const double BUDGET_S = 8.;
+const double WALL_LIMIT_S = 240.;
 
 // returns "" or what went wrong ("timeout", "signal N", "abort: ...")
 template <class GRID>
@@ -356,6 +361,11 @@ std::string run_isolated(const std::vector<Vec> &pos, const Box<> &box,
     return "fork failed";
   if (pid == 0) {
     close(fd[0]);
+    struct rlimit rl;
+    rl.rlim_cur = (rlim_t)BUDGET_S;
+    rl.rlim_max = (rlim_t)BUDGET_S + 2;
+    setrlimit(RLIMIT_CPU, &rl);
+    signal(SIGXCPU, SIG_DFL);
     std::vector<double> d;
     try {
       const GridOut o = run_grid<GRID>(pos, box, threads, queries, isnew);
@@ -395,7 +405,7 @@ std::string run_isolated(const std::vector<Vec> &pos, const Box<> &box,
   for (;;) {
     const double el =
         std::chrono::duration<double>(std::chrono::steady_clock::now() - t0).count();
-    if (el > BUDGET_S) {
+    if (el > WALL_LIMIT_S) {
       timeout = true;
       break;
     }
@@ -415,7 +425,10 @@ std::string run_isolated(const std::vector<Vec> &pos, const Box<> &box,
   int status = 0;
   waitpid(pid, &status, 0);
   if (timeout)
-    return "timeout";
+    return "wall-limit";
+  if (WIFSIGNALED(status) &&
+      (WTERMSIG(status) == SIGXCPU || WTERMSIG(status) == SIGKILL))
+    return "timeout"; // CPU budget used up
   if (WIFSIGNALED(status))
     return "signal " + std::to_string(WTERMSIG(status));
   std::vector<double> d(buf.size() / sizeof(double));
@@ -487,7 +500,14 @@ VCase gen_grid(int maxn, bool nondegenerate_only) {
   // box: anchor and sides, aspect ratio up to 1:20
   double a[3], s[3];
   const int bm = vr::weighted({3, 2, 3});
-  const double L = bm == 0 ? 1. : (bm == 1 ? vr::dyadic(0.5, 4., 3) : vr::logu(1e-2, 1e2));
+  // the unit of length is the caller's: unit boxes, a few units, two decades
+  // around 1, and (1/3 of the general boxes) anything from micrometres to
+  // kiloparsecs in metres - every tolerance in the two grids is relative to
+  // the box
+  const double L = bm == 0 ? 1.
+                   : (bm == 1 ? vr::dyadic(0.5, 4., 3)
+                              : (vr::coin(0.67) ? vr::logu(1e-2, 1e2)
+                                                : vr::logu(1e-6, 1e20)));
   for (int k = 0; k < 3; ++k) {
     a[k] = bm == 0 ? 0. : (bm == 1 ? vr::dyadic(-2., 2., 3) : L * vr::uni(-2., 2.));
     s[k] = L;
@@ -1064,6 +1084,10 @@ void common_labels(const Problem &P, VResult &r, bool mt) {
                               P.box.get_sides().z()});
   if (ar > 4.)
     r.label("elongated-box");
+  const double smax = std::max({P.box.get_sides().x(), P.box.get_sides().y(),
+                                P.box.get_sides().z()});
+  r.label(smax < 0.05 ? "box-sides<0.05"
+                      : (smax > 1e3 ? "box-sides>1e3" : "box-sides~1"));
   const bool degenerate = P.cls == 2 || P.cls == 3 || P.cls == 4;
   r.nontrivial = n >= 8 && (degenerate || P.cls == 1 || (mt && P.threads > 1));
 }
@@ -1155,16 +1179,22 @@ bool has_lattice_plane(const Problem &P) {
 
 void grid_failure(const char *name, const std::string &err, const Problem &P,
                   VResult &r) {
+  if (err == "wall-limit") { // overloaded machine: says nothing about the code
+    r.label("inconclusive-wall-limit");
+    r.nontrivial = false;
+    return;
+  }
   if (err == "timeout" && has_lattice_plane(P) && min_wall_distance(P) >= 1e-3 &&
       min_separation(P) >= 1e-5 * P.Lbox) {
     r.fail(fmt("%s: construction of an (almost) exactly degenerate lattice did "
-               "not finish within %g s (normal: < 0.5 s)",
+               "not finish within %g s of CPU time (normal: < 0.5 s)",
                name, BUDGET_S));
     r.known = "newvoronoi_hang_degenerate_lattice";
     return;
   }
   if (err == "timeout") {
-    r.fail(fmt("%s: construction did not finish within %g s (normal: < 0.5 s)",
+    r.fail(fmt("%s: construction did not finish within %g s of CPU time "
+               "(normal: < 0.5 s)",
                name, BUDGET_S));
     if (min_wall_distance(P) < 1e-3 || min_separation(P) < 1e-5 * P.Lbox)
       r.known = "newvoronoi_hang_generator_near_wall";
@@ -1177,7 +1207,39 @@ void grid_failure(const char *name, const std::string &err, const Problem &P,
 }
 
 // the incremental construction: invariants, queries, brute-force reference
-VResult o_new(const VCase &c) {
+VResult o_new_impl(const VCase &c);
+VResult o_old_impl(const VCase &c);
+
+// A failure of a multi-threaded construction whose single-threaded
+// construction of the same generators is fine is a violation seen on real,
+// unsynchronised threads: it is reported even when a re-run does not hit the
+// interleaving again, and it is never one of the (deterministic, geometric)
+// known findings.
+VResult thread_checked(VResult (*impl)(const VCase &), const VCase &c) {
+  VResult r = impl(c);
+  if (!r.ok && c.i("threads") > 1) {
+    VCase c1 = c;
+    for (auto &p : c1.ii)
+      if (p.first == "threads")
+        p.second = {1};
+    const VResult r1 = impl(c1);
+    bool inconclusive = false;
+    for (auto &l : r1.labels)
+      inconclusive |= l == "inconclusive-wall-limit";
+    if (r1.ok && !inconclusive) {
+      r.schedule_dependent = true;
+      r.known.clear();
+      r.msg += fmt(" [with %d threads; the 1-thread construction of the same "
+                   "generators passes every check]",
+                   (int)c.i("threads"));
+    }
+  }
+  return r;
+}
+VResult o_new(const VCase &c) { return thread_checked(o_new_impl, c); }
+VResult o_old(const VCase &c) { return thread_checked(o_old_impl, c); }
+
+VResult o_new_impl(const VCase &c) {
   VResult r;
   const Problem P = unpack(c);
   if (!valid_problem(P, r))
@@ -1245,7 +1307,7 @@ VResult o_new(const VCase &c) {
 }
 
 // the plane-cutting construction and the differential
-VResult o_old(const VCase &c) {
+VResult o_old_impl(const VCase &c) {
   VResult r;
   const Problem P = unpack(c);
   if (!valid_problem(P, r))
@@ -1267,6 +1329,10 @@ VResult o_old(const VCase &c) {
   GridOut O;
   const std::string err =
       run_isolated<OldVoronoiGrid>(P.pos, P.box, P.threads, P.queries, false, O);
+  if (err == "wall-limit") {
+    grid_failure("OldVoronoiGrid", err, P, r);
+    return r;
+  }
   if (!err.empty()) {
     r.fail(fmt("OldVoronoiGrid: construction failed on a valid input: %s",
                err.c_str()));
@@ -1415,6 +1481,10 @@ VResult o_index(const VCase &c) {
         which == 0 ? run_isolated<NewVoronoiGrid>(P.pos, P.box, 1, P.queries, true, G)
                    : run_isolated<OldVoronoiGrid>(P.pos, P.box, 1, P.queries, false, G);
     const char *name = which == 0 ? "NewVoronoiGrid" : "OldVoronoiGrid";
+    if (err == "wall-limit") {
+      grid_failure(name, err, P, r);
+      return r;
+    }
     if (!err.empty()) {
       r.fail(fmt("%s: construction or get_index failed on a valid input: %s", name,
                  err.c_str()));
